@@ -126,5 +126,18 @@ def replay(ctx, rec):
     c = rec["case"]["case"]
     o = run_one(c)
     ctx.ran()
+    if "machinery" in o:
+        raise core.MachineryError("provenance child failed: " + o["machinery"])
     t = build_trace(c, o)
     print(o["status"], t)
+    want = "raised" if c["kind"] in ("py_raise", "sh_fail", "wf_fail") else "ok"
+    if o["status"] != want:
+        ctx.violation(f"replay: pool task {c} ended {o['status']}, expected {want}", case={"case": c}, expected=want, observed=o.get("error"))
+        return
+    f = ctx.scratch / "prov_replay.ndjson"
+    f.write_text(json.dumps(dict(t, tid=1)) + "\n")
+    r = ctx.tlc("Provenance_Trace", cfg="Provenance_Trace.cfg", workers=1, env={"TRACE_FILE": str(f)})
+    recs = r.printed()
+    if not any(x["verdict"][0] == "accepted" for x in recs):
+        ctx.violation(f"replay: provenance records of {c} are not a behaviour of Provenance", case={"case": c}, expected="accepted",
+                      observed={"verdicts": recs, "events": t["ev"]})
